@@ -155,10 +155,10 @@ class C11(Check):
     per_case_timeout = 10
     technique = ('machine-checked proof (Coq 8.16) about an executable model of the pthread primitives and of libnstd\'s wrappers '
                  '+ deterministic-scheduler correspondence (real library code on virtual primitives, same move list as the model)')
-    level_text = ('Theorems in Coq (31, closed under the global context; 22 about the coarse machine, 9 about its granularity) about every state reachable by ANY list of scheduler moves '
+    level_text = ('Theorems in Coq (32, closed under the global context; 22 about the coarse machine, 10 about its granularity) about every state reachable by ANY list of scheduler moves '
                   '(run a thread\'s pending primitive call, spurious wake-up, timeout, timeout-steal = a woken timed waiter past its '
                   'deadline reports ETIMEDOUT although the signal was directed at it (POSIX-permitted), clock advance, rotation of a '
-                  'condition queue) from any scripts of library calls, any number of threads, any initial signal state and semaphore '
+                  'condition queue) from any scripts of library calls, any number of threads, any results of the thread functions, any initial signal state and semaphore '
                   'value. Theorems about libnstd\'s own logic on the modelled primitives: Signal wait true only if set since the last '
                   'reset, a blocked waiter with the flag up implies a setter standing at its enabled broadcast (Signal::set = lock; '
                   'flag; broadcast; unlock - fixes/C10/04), the broadcast leaves nobody blocked, the setter owns the internal mutex '
@@ -187,7 +187,22 @@ class C11(Check):
                   'adjacent independent events (fine_granularity_adds_no_behaviours, fine_quiescent_is_coarse, fine_completes: at most 3 moves '
                   'complete a fine state); the six history predicates are invariant under those swaps and suffix-closed, so they hold '
                   'literally of every fine-reachable history with foreign_unlock = false (fine_all_ok). The hypothesis is necessary for the '
-                  'Monitor half: fine_monitor_race_under_foreign_unlock (one set(), two waits return true after a foreign unlock).')
+                  'Monitor half: fine_monitor_race_under_foreign_unlock (one set(), two waits return true after a foreign unlock). '
+                  'ROUND 5: (a) the STATE clauses (no waiter stays blocked while the signal is set / while the count is positive, set releases all '
+                  'current waiters, a set() after a waiter took the monitor releases a waiter, the woken waiter returns true, re-entrancy, tryLock '
+                  'enabled) are proved of the fine machine too: fine_no_stuck - for every fine-reachable state with foreign_unlock = false the '
+                  'COMPLETION c of the state (pending accesses performed; at most 3 moves of the pending threads themselves) satisfies all of '
+                  'them; they cannot be read on the fine state itself, where the thread standing in front of its access is not even enabled '
+                  '(its pc is still at the lock it has passed: ex_fine_no_stuck_premise). For the Monitor clause the ghost mark is carried '
+                  'across the simulation (SyncFineMark.v: every mark of c is a mark of the matching coarse state). (b) Thread::start is two '
+                  'moves in the model and in the virtual pthread_create: the create, and the return to the creator (ThStartRet) - the child may '
+                  'run before the creator\'s code that follows pthread_create; the 32 theorems hold of that model. (c) the oracle on the '
+                  'implementation says what the text says and no more: a timed wait\'s abstime must be a valid timespec NOT EARLIER than start + '
+                  'timeout (that it is exactly start + timeout - deadline_exact, deadline_is_spec - is compared with the model only); successful '
+                  'Monitor waits are counted against set() CALLS that passed their critical section, not against flag transitions; "no Semaphore '
+                  'waiter stays blocked while the count is positive" is judged with the count initial value + signals - successful waits computed '
+                  'from the history, not with the value the implementation reports; thread results and initial semaphore counts beyond 2^8, 2^16 '
+                  'and 2^31 are generated.')
     level_note = ('PARTIAL in this sense: the OS primitives are MODELLED. coq/Sync/Sched.v (pthread mutex plain/recursive - EPERM for a '
                   'non-owner unlock only on the recursive type, a default-type mutex is freed whoever held it, as glibc does -, condition '
                   'variable with spurious wake-ups, timeouts and timeout-steals as scheduler moves, POSIX semaphore with EINTR, '
@@ -215,11 +230,27 @@ class C11(Check):
                   'Sched.v). What stays outside the proof: the fine machine still interleaves at the level of whole plain accesses under '
                   'sequential consistency (no weaker memory model, no torn accesses - the pthread lock/unlock pairs around every access are '
                   'what makes that adequate); the thread-local code without shared accesses (deadline arithmetic, return-value handling) stays '
-                  'fused with the neighbouring move, which is sound because it touches nothing another thread can read; the ghost mark is '
+                  'fused with the neighbouring move, which is sound for Signal / Monitor / Mutex / Semaphore because it touches nothing another thread can read (Thread is different, see below); the ghost mark is '
                   'not related across the two machines (it is write-only), so the state theorems that do not mention it transfer to '
-                  'quiescent fine states through the state agreement (fine_quiescent_is_coarse), while monitor_set_releases_a_waiter, whose '
-                  'premise names the mark, is NOT transferred to the fine machine; the fine machine is not tied to the implementation by a '
-                  'correspondence run of its own (the harness schedules at primitive-call granularity, like the coarse model). A thread id runs at most once per scenario: restarting a Thread object after join() is allowed by the class '
+                  'quiescent fine states through the state agreement (fine_quiescent_is_coarse); round 5 relates the mark in one direction '
+                  '(marks of the completed fine state are marks of the coarse state; the converse is false - the coarse machine marks at the return '
+                  'of set()\'s lock, the fine one at the later write, and a waiter may have been woken in between) and states all state clauses '
+                  'incl. monitor_set_releases_a_waiter of the completed fine state (fine_no_stuck); the fine machine is not tied to the implementation by a '
+                  'correspondence run of its own (the harness schedules at primitive-call granularity, like the coarse model). '
+                  'Thread::func and Thread::thread are plain variables shared between the creator and the child / a joiner and are NOT part of the fine '
+                  'machine (Thread.hpp:16-18): func is written before pthread_create and read by the child\'s routine, so the accesses are '
+                  'ordered by the create itself; that the library keeps that order is checked by the tie only (since round 5 the virtual '
+                  'pthread_create has a second scheduling point after the create succeeded, the enum scopes run the child first, and a start() that '
+                  'stores func after the create crashes there: mutants/C11/A2-03), not by a theorem. Two threads joining the same Thread object '
+                  '(two pthread_join on one thread: undefined in POSIX) succeed both in the model (PJoin only reads TDone); no generated scenario does '
+                  'that any more. Primitives outside Sched.v: pthread_mutex_timedlock / clocklock, pthread_cond_clockwait, sem_clockwait, '
+                  'pthread_tryjoin_np / timedjoin_np / clockjoin_np are wrapped by the virtual scheduler as the timed variants of the modelled calls '
+                  '(so code rewritten onto them is judged on the virtual objects; their pending-call tokens differ from the model\'s, i.e. a '
+                  'correspondence difference, never a verdict); any OTHER pthread/sem entry point used on a library object would still reach the '
+                  'real glibc object. The text is silent where the code decides: the untimed Semaphore::wait() returns false on EINTR (no retry; '
+                  'the text constrains successful waits and timed false returns only); Monitor::wait() never looks at the flag before its first '
+                  'condition wait, so a set() issued before the waiter arrived is consumed only after the next signal or spurious wake-up '
+                  '(the text speaks of a set() issued AFTER a waiter has taken the monitor). A thread id runs at most once per scenario: restarting a Thread object after join() is allowed by the class '
                   'but impossible in the model and in the virtual pthread_create (EAGAIN). One object of each class per scenario; the '
                   'ENOSYS polling fallback of Semaphore::wait(timeout) (Semaphore.cpp:74-87, sem_trywait + usleep loop) is neither '
                   'modelled nor ever executed by this check (the virtual sem_timedwait never reports ENOSYS); Thread::yield, '
@@ -230,20 +261,24 @@ class C11(Check):
                   'is proved as absence of stuck states (a named thread has an enabled step that ends the configuration), not as '
                   'termination under a fairness assumption; for Monitor the woken waiter additionally needs the monitor lock, which a '
                   'caller may hold forever. Signal::wait(timeout) returns false when a timeout-steal hits it even though the signal is '
-                  'set; that contradicts no clause (manual reset + broadcast: nobody else loses the wake-up). Judge: S/M events are flag '
-                  'transitions observed in memory, so the history oracle on the implementation checks waits <= effective (false->true) '
-                  'sets, which is stronger than the theorem monitor_waits_le_sets; validated by correspondence only: handle bookkeeping '
-                  'of Thread::start/join on repeated start/join (modelled, compared, no theorem).')
+                  'set; that contradicts no clause (manual reset + broadcast: nobody else loses the wake-up). Judge: S events are flag '
+                  'transitions observed in memory; a Monitor set() is counted when the thread executing it has passed its critical section '
+                  '(P event: it got the monitor\'s mutex and stands at the unlock), flag changed or not - exactly the sets of the theorem '
+                  'monitor_waits_le_sets (until round 5 only false->true transitions were counted, which rejected a Monitor that remembers every '
+                  'set()); the state oracle asks for a released waiter per blocked-and-marked waiter by "a set() passed while it was blocked and '
+                  'no wait has returned true since", not by the value of the flag; validated by correspondence only: handle bookkeeping '
+                  'of Thread::start/join on repeated start/join (modelled, compared, no theorem), the exact value of the deadline.')
     rule = ('case = scenario (2-4 threads, one script of library calls per thread, mostly one primitive family) + schedule (list of '
             'moves run/spur/tmo/steal/clock/rot, then a deterministic drain). Streams: enum = every schedule (depth-first, bounded number '
             'of spurious wake-ups/timeouts/timeout-steals, optionally after a fixed prefix that blocks the waiters) of small 2-3 thread '
             'scenarios per primitive; templates = handshake templates x guided '
             'random walks (moves chosen among enabled threads, spurious wake-ups of blocked waiters, clock to deadline-1 / deadline + '
             'timeout or timeout-steal of a woken timed waiter, queue rotations, no-op moves); random = random scripts x random walks; deadline = abstime probes on carry '
-            'boundaries. Clock bases put the nanosecond field next to a carry. A scenario case is non-trivial when at least two '
+            'boundaries. Integer-width boundaries: initial semaphore counts 255..2^31-1 (templates, enum, 15 % of the random scenarios), thread results '
+            '0..2^32-1 incl. low byte(s) zero and values >= 2^31 (case line `r <t> <v>`). Thread scopes enumerate every order of creator and child around pthread_create. Clock bases put the nanosecond field next to a carry. A scenario case is non-trivial when at least two '
             'threads returned from a library call and some thread was blocked (mutex, condition, semaphore or join) at some move; '
             'a deadline case when the nanosecond field carries or the timeout has a sub-second part; distinct = distinct op text.')
-    assumptions = ['initial semaphore value >= 0 (uint in the code)',
+    assumptions = ['initial semaphore value >= 0 (uint in the code); the tie drives values up to SEM_VALUE_MAX = 2^31-1, thread results in [0, 2^32)',
                    'OS primitives behave as coq/Sync/Sched.v says (POSIX semantics incl. spurious wake-ups, ETIMEDOUT only at/after the absolute deadline but possibly after a signal was consumed, EINVAL for tv_nsec outside [0,1e9), glibc order in sem_timedwait, glibc owner check on unlock only for recursive mutexes); harness/sync_sched.cpp transcribes it',
                    'sequential consistency at the granularity of whole plain accesses to the two signaled flags (that primitive-call granularity loses nothing is proved: fine_granularity_adds_no_behaviours); for the Monitor half of that proof: no thread calls Monitor::unlock while another thread owns the monitor (foreign_unlock = false; necessary: fine_monitor_race_under_foreign_unlock)',
                    'the clock read by a timed wait is the clock its primitive measures the deadline against (checked on the implementation by the two scripted clocks of the virtual scheduler, not part of the Coq model)',
@@ -499,7 +534,9 @@ class C11(Check):
         a crash; occupancy of a critical section; at a quiescent end (nothing enabled, no timed waiter) no Signal
         waiter is blocked while the signal is set, no Semaphore waiter while the count is positive, and no Monitor
         waiter that was already blocked when some set() passed its critical section (flag changed or not) is still blocked
-        while the flag is up unless a woken waiter is itself waiting for the monitor lock."""
+        with no wait having returned true since that set(), unless a woken waiter is itself waiting for the monitor lock.
+        The semaphore count is initial value + signals - successful waits as the history shows them (the text's count), not
+        only the value the implementation's semaphore reports."""
         disc = self.disciplined(case)
         mark = {}
         prev_blocked = set()
